@@ -2,6 +2,7 @@
 From Coq Require Import Bool ZArith List.
 From K Require Import Lib.Types Model.Machine Model.Alu Model.Exec Spec.ISA Proofs.FlagProofs.
 From K Require Import Model.Bus Model.Cost Model.Addressing Spec.MemMap Proofs.RegProofs Proofs.StackProofs Proofs.MemProofs Proofs.CtlProofs.
+From K Require Import Proofs.StepProofs Proofs.StepRefines Proofs.StepRefinesCtl.
 Open Scope Z_scope.
 
 (* the 16 x 256 condition table *)
@@ -113,6 +114,74 @@ Theorem rts_refines :
                 (i <- cs KI 2 ;; k <- csa KK 2 (reg32 s 7 mod A24) ;; n <- cs KN 2 ;; ret (u8add (u8add i k) n)).
 Proof. exact rts_refines_proof. Qed.
 
+(* ---- from the instruction word in memory to the reference semantics, in one statement ----
+   s is ANY machine state with an even PC whose instruction word w can be fetched, w1..w4 whatever follows it; if the
+   operation-code map decodes w as the two-byte instruction i and the reference semantics sem_ref gives s', then one
+   step of the model (fetch, dispatch, handler) ends in s' (plus the bookkeeping field operating_pc) with the charge
+   computed by the handler's charge expression on that final state. *)
+Theorem step_bcc8 :
+  forall s w w1 w2 w3 w4 cc d n s',
+    cpu_ok s -> bus_bytes_ok s -> fault s = false -> pc s mod 2 = 0 -> 0 <= pc s -> pc s + 2 < 4294967296 ->
+    mem_read SW s (pc s) = Some w ->
+    decode_ref w w1 w2 w3 w4 = Some (IBcc cc d, 2) ->
+    (cond_ref cc (ccr s) = true -> 0 <= pc s + 2 + d < 4294967296 /\ (pc s + 2 + d) mod 2 = 0) ->
+    sem_ref (IBcc cc d) 2 s = Some s' ->
+    cs KI 2 (set_opc (pc s) s') = Ok n (set_opc (pc s) s') ->
+    step s = Ok n (set_opc (pc s) s').
+Proof. exact step_bcc8_proof. Qed.
+
+Theorem step_jmp_ern :
+  forall s w w1 w2 w3 w4 r n s',
+    bus_bytes_ok s -> fault s = false -> pc s mod 2 = 0 -> 0 <= pc s -> pc s + 2 < 4294967296 ->
+    mem_read SW s (pc s) = Some w ->
+    decode_ref w w1 w2 w3 w4 = Some (IJmp (JReg r), 2) ->
+    sem_ref (IJmp (JReg r)) 2 s = Some s' ->
+    cs KI 2 (set_opc (pc s) s') = Ok n (set_opc (pc s) s') ->
+    step s = Ok n (set_opc (pc s) s').
+Proof. exact step_jmp_ern_proof. Qed.
+
+Theorem step_jmp_ind :
+  forall s w w1 w2 w3 w4 aa n s',
+    bus_bytes_ok s -> fault s = false -> pc s mod 2 = 0 -> 0 <= pc s -> pc s + 2 < 4294967296 ->
+    mem_read SW s (pc s) = Some w ->
+    decode_ref w w1 w2 w3 w4 = Some (IJmp (JInd aa), 2) ->
+    sem_ref (IJmp (JInd aa)) 2 s = Some s' ->
+    (i <- cs KI 2 ;; j <- csa KJ 2 aa ;; n <- cs KN 2 ;; ret (u8add (u8add i j) n)) (set_opc (pc s) s') = Ok n (set_opc (pc s) s') ->
+    step s = Ok n (set_opc (pc s) s').
+Proof. exact step_jmp_ind_proof. Qed.
+
+Theorem step_bsr8 :
+  forall s w w1 w2 w3 w4 d n s',
+    cpu_ok s -> bus_bytes_ok s -> fault s = false -> pc s mod 2 = 0 -> 0 <= pc s -> pc s + 2 < 4294967296 ->
+    mem_read SW s (pc s) = Some w ->
+    decode_ref w w1 w2 w3 w4 = Some (IBsr d, 2) ->
+    0 <= pc s + 2 + d < 4294967296 ->
+    sem_ref (IBsr d) 2 s = Some s' ->
+    (i <- cs KI 2 ;; k <- csa KK 2 ((reg32 s 7 - 4) mod A24) ;; ret (u8add i k)) (set_opc (pc s) s') = Ok n (set_opc (pc s) s') ->
+    step s = Ok n (set_opc (pc s) s').
+Proof. exact step_bsr8_proof. Qed.
+
+(* JSR @ERn, n <> 7: the reference takes the target before the push, the code after it *)
+Theorem step_jsr_ern :
+  forall s w w1 w2 w3 w4 r n s',
+    cpu_ok s -> bus_bytes_ok s -> fault s = false -> pc s mod 2 = 0 -> 0 <= pc s -> pc s + 2 < 4294967296 ->
+    mem_read SW s (pc s) = Some w ->
+    decode_ref w w1 w2 w3 w4 = Some (IJsr (JReg r), 2) -> r <> 7 ->
+    sem_ref (IJsr (JReg r)) 2 s = Some s' ->
+    (i <- cs KI 2 ;; k <- csa KK 2 ((reg32 s 7 - 4) mod A24) ;; ret (u8add i k)) (set_opc (pc s) s') = Ok n (set_opc (pc s) s') ->
+    step s = Ok n (set_opc (pc s) s').
+Proof. exact step_jsr_ern_proof. Qed.
+
+Theorem step_rts :
+  forall s w w1 w2 w3 w4 n s',
+    bus_bytes_ok s -> fault s = false -> pc s mod 2 = 0 -> 0 <= pc s -> pc s + 2 < 4294967296 ->
+    mem_read SW s (pc s) = Some w ->
+    decode_ref w w1 w2 w3 w4 = Some (IRts, 2) ->
+    sem_ref IRts 2 s = Some s' ->
+    (i <- cs KI 2 ;; k <- csa KK 2 (reg32 s 7 mod A24) ;; n <- cs KN 2 ;; ret (u8add (u8add i k) n)) (set_opc (pc s) s') = Ok n (set_opc (pc s) s') ->
+    step s = Ok n (set_opc (pc s) s').
+Proof. exact step_rts_proof. Qed.
+
 Print Assumptions cond_table.
 Print Assumptions call_rts_inverse.
 Print Assumptions bcc8_refines.
@@ -126,3 +195,9 @@ Print Assumptions jsr_ern_refines.
 Print Assumptions jsr_abs_refines.
 Print Assumptions jsr_ind_refines.
 Print Assumptions rts_refines.
+Print Assumptions step_bcc8.
+Print Assumptions step_jmp_ern.
+Print Assumptions step_jmp_ind.
+Print Assumptions step_bsr8.
+Print Assumptions step_jsr_ern.
+Print Assumptions step_rts.
